@@ -5,6 +5,7 @@ import (
 	"context"
 	"crypto/ed25519"
 	"fmt"
+	"math/big"
 	"strings"
 	"time"
 
@@ -341,7 +342,11 @@ func buildSpec(c *enum.Ctx, seed int) spec {
 				m = wallet.Message{Amount: amount, Address: d, Bounce: bounce, Mode: mode}
 			case 1:
 				cl := []int{5, 1, 122, 123, 124, 1000}[c.Choose(6)]
-				m = wallet.SimpleTransfer{Amount: amount, Address: d, Comment: strings.Repeat("c", cl), Bounceable: bounce}
+				st := wallet.SimpleTransfer{Amount: amount, Address: d, Comment: strings.Repeat("c", cl), Bounceable: bounce}
+				if c.Choose(2) == 1 {
+					st.ExtraCurrency = map[int32]tlb.VarUInteger32{7: tlb.VarUInteger32(*big.NewInt(100))}
+				}
+				m = st
 			case 2:
 				body := tb.NewCell()
 				body.WriteUint(0xF00D, 16)
@@ -388,11 +393,25 @@ func (s spec) options() []wallet.Option {
 func expectedRaw(c *enum.Ctx, msgs []wallet.Sendable) ([]rawMsg, []wallet.RawMessage, bool) {
 	var out []rawMsg
 	var raw []wallet.RawMessage
-	for _, m := range msgs {
+	// every request is converted first and judged afterwards: a converted message is a value of its own, it keeps the
+	// fields of its request whatever is converted next, and carries nothing of the requests converted before it
+	ims := make([]tlb.Message, len(msgs))
+	modes := make([]uint8, len(msgs))
+	for i, m := range msgs {
 		im, mode, err := m.ToInternal()
 		if err != nil {
 			return nil, nil, false
 		}
+		ims[i], modes[i] = im, mode
+	}
+	for i, m := range msgs {
+		if why := internalDiffers(ims[i], modes[i], m); why != "" {
+			c.Fail("internal-message-fields", "request %d of %d (%T) converted to an internal message with %s", i, len(msgs), m, why)
+			return nil, nil, false
+		}
+	}
+	for i := range msgs {
+		im, mode := ims[i], modes[i]
 		cl := tb.NewCell()
 		if err := tlb.Marshal(cl, im); err != nil {
 			return nil, nil, false
@@ -405,6 +424,60 @@ func expectedRaw(c *enum.Ctx, msgs []wallet.Sendable) ([]rawMsg, []wallet.RawMes
 		raw = append(raw, wallet.RawMessage{Message: cl, Mode: mode})
 	}
 	return out, raw, true
+}
+
+// internalDiffers compares the header of a converted internal message with its request, field by field.
+func internalDiffers(im tlb.Message, mode uint8, req wallet.Sendable) string {
+	var dest ton.AccountID
+	var amount tlb.Grams
+	var bounce bool
+	wantMode := uint8(wallet.DefaultMessageMode)
+	extra := map[int32]tlb.VarUInteger32{}
+	switch r := req.(type) {
+	case wallet.Message:
+		dest, amount, bounce, wantMode = r.Address, r.Amount, r.Bounce, r.Mode
+	case wallet.SimpleTransfer:
+		dest, amount, bounce = r.Address, r.Amount, r.Bounceable
+		for k, v := range r.ExtraCurrency {
+			extra[k] = v
+		}
+	default:
+		return ""
+	}
+	if im.Info.SumType != "IntMsgInfo" || im.Info.IntMsgInfo == nil {
+		return "a header that is not int_msg_info"
+	}
+	h := im.Info.IntMsgInfo
+	if mode != wantMode {
+		return fmt.Sprintf("mode %d, requested %d", mode, wantMode)
+	}
+	if h.Bounce != bounce || h.Bounced || !h.IhrDisabled {
+		return fmt.Sprintf("flags ihr_disabled=%v bounce=%v bounced=%v, requested bounce=%v", h.IhrDisabled, h.Bounce, h.Bounced, bounce)
+	}
+	if h.Src.SumType != "AddrNone" {
+		return "a source address"
+	}
+	if h.Dest.SumType != "AddrStd" || int32(h.Dest.AddrStd.WorkchainId) != dest.Workchain || [32]byte(h.Dest.AddrStd.Address) != dest.Address || h.Dest.AddrStd.Anycast.Exists {
+		return fmt.Sprintf("destination %+v, requested %s", h.Dest, dest.ToRaw())
+	}
+	if h.Value.Grams != amount {
+		return fmt.Sprintf("amount %d, requested %d", h.Value.Grams, amount)
+	}
+	if h.IhrFee != 0 || h.FwdFee != 0 || h.CreatedLt != 0 || h.CreatedAt != 0 {
+		return "non-zero fee / creation fields"
+	}
+	keys := h.Value.Other.Dict.Keys()
+	if len(keys) != len(extra) {
+		return fmt.Sprintf("%d extra currencies, requested %d", len(keys), len(extra))
+	}
+	for _, k := range keys {
+		v, ok := h.Value.Other.Dict.Get(k)
+		w, ok2 := extra[int32(k)]
+		if !ok || !ok2 || (*big.Int)(&v).Cmp((*big.Int)(&w)) != 0 {
+			return fmt.Sprintf("extra currency %d not as requested", k)
+		}
+	}
+	return ""
 }
 
 // checkMessage applies every oracle to one external message cell (reference form).
